@@ -31,11 +31,23 @@ with cf.ThreadPoolExecutor(jobs) as ex:
         rows.append(res)
         print('%-16s %s exit=%d %s (%.0fs)' % (res[0], res[1], res[2], ','.join(res[3]), res[4]), flush=True)
 missed = [r for r in rows if r[2] != 1]
-if not pat:
-    with open(os.path.join(HERE, 'seeded', 'RESULTS.md'), 'w') as f:
-        f.write('# Seeded changes vs quick checks\n\nProduced by `tools/seeded_all.py`; %d changes, %d detected (exit 1 with a VIOLATION line).\n\n' % (len(rows), len(rows) - len(missed)))
-        f.write('| change | property | exit | failing sub-claims |\n|---|---|---|---|\n')
-        for r in rows:
-            f.write('| %s | %s | %d | %s |\n' % (r[0], r[1], r[2], ', '.join(r[3])))
+# RESULTS.md holds one row per kept change; a run restricted by a pattern replaces only the rows it produced
+res_path = os.path.join(HERE, 'seeded', 'RESULTS.md')
+table = {}
+if pat and os.path.exists(res_path):
+    for line in open(res_path):
+        m = re.match(r'\| (\S+) \| (C\d\d) \| (-?\d+) \| (.*) \|$', line.rstrip('\n'))
+        if m:
+            table[m.group(1)] = (m.group(1), m.group(2), int(m.group(3)), [t for t in m.group(4).split(', ') if t])
+for r in rows:
+    table[r[0]] = r[:4]
+kept = set(os.path.basename(d) for d in glob.glob(os.path.join(HERE, 'seeded', '*')) if os.path.isdir(d))
+allrows = [table[k] for k in sorted(table) if k in kept]
+with open(res_path, 'w') as f:
+    f.write('# Seeded changes vs quick checks\n\nProduced by `tools/seeded_all.py`; %d changes, %d detected (exit 1 with a VIOLATION line).\n\n' % (
+        len(allrows), sum(1 for r in allrows if r[2] == 1)))
+    f.write('| change | property | exit | failing sub-claims |\n|---|---|---|---|\n')
+    for r in allrows:
+        f.write('| %s | %s | %d | %s |\n' % (r[0], r[1], r[2], ', '.join(r[3])))
 print('detected %d of %d' % (len(rows) - len(missed), len(rows)))
 sys.exit(1 if missed else 0)
